@@ -9,11 +9,20 @@ Record c14_step := mkStep {
   s_label   : label;
   s_res     : res;             (* observed error class *)
   s_tsoread : bool;            (* observed: GetTimestampOracle was called during the operation *)
+  s_stale   : bool;            (* schedule: other candidates were stepped between this operation's BeginBatchWrite and its Commit *)
   s_got     : option bytes;    (* observed, Get only: the bytes the engine returned to this candidate's own Get *)
   s_stored  : option bytes;    (* observed: engine content of <prefix>/election right after the step *)
   s_desc    : bytes * N        (* observed: Describe() = "<holder>,<tso>" of the acting candidate *)
 }.
 Record c14_case := mkCase { k_init : option lrec; k_steps : list c14_step }.
+
+(* An engine whose batch reads a snapshot taken at BeginBatchWrite (Badger) answers a commit that
+   lost a race with ITS OWN conflict error instead of a failed condition: where the model says
+   "condition failed" for an operation that was overtaken between begin and commit, a plain error
+   is accepted as well. Nothing is applied in either case. *)
+Definition res_ok (stale : bool) (model observed : res) : bool :=
+  res_eqb model observed || (stale && res_eqb model RConflict && res_eqb observed RErr).
+Definition res_is_ok (r : res) : bool := match r with ROk => true | _ => false end.
 
 Definition desc_eqb (a b : bytes * N) : bool := beqb (fst a) (fst b) && (snd a =? snd b).
 
@@ -23,7 +32,7 @@ Fixpoint c14_run (s : sys) (xs : list c14_step) : bool :=
   | x :: tl =>
       let o := run_op s (s_label x) in
       let s' := step s (s_label x) in
-      res_eqb (o_res o) (s_res x)
+      res_ok (s_stale x) (o_res o) (s_res x)
       && Bool.eqb (o_tsoread o) (s_tsoread x)
       && opt_eqb beqb (match s_label x with LGet _ _ _ => o_observed o | _ => None end) (s_got x)
       && opt_eqb beqb (rec_bytes (store s')) (s_stored x)
@@ -68,14 +77,13 @@ Definition orc_step (o : ostate) (x : c14_step) : option ostate :=
       (* an information lookup neither writes the record nor changes what the candidate holds *)
       if obeq after before then Some (mkO after (o_obs o)) else None
   | LCreate c _ b e t =>
-      match s_res x with
-      | ROk =>
+      if res_is_ok (s_res x) then
           (* a create succeeds only on an absent record, and then the record is what it wrote *)
           match before with
           | None => if obeq after (Some b) then Some (mkO after (upd (o_obs o) c (Some b))) else None
           | Some _ => None
           end
-      | _ =>
+      else
           if obeq after before then Some (mkO after (o_obs o))
           else match before with
                | None => if may_hide e t && obeq after (Some b)
@@ -83,22 +91,19 @@ Definition orc_step (o : ostate) (x : c14_step) : option ostate :=
                          else None
                | Some _ => None      (* a failed create changed an existing record *)
                end
-      end
   | LUpdate c _ b e t =>
       let justified :=
         match before, o_obs o c with
         | Some x, Some y => beqb x y && obeq after (Some b)
         | _, _ => false
         end in
-      match s_res x with
-      | ROk =>
+      if res_is_ok (s_res x) then
           (* an update succeeds only if the record was still exactly what the candidate last obtained *)
           if justified then Some (mkO after (o_obs o)) else None
-      | _ =>
+      else
           if obeq after before then Some (mkO after (o_obs o))
           else if may_hide e t && justified then Some (mkO after (o_obs o))
           else None                  (* a failed update changed the record *)
-      end
   end.
 
 Fixpoint orc_run (o : ostate) (xs : list c14_step) : bool :=
